@@ -1,3 +1,5 @@
+//go:build verif_e1
+
 package impl
 
 // E1 harnesses for the generated k256 fields (fiat_fp.gen.go, fiat_fq.gen.go), linear part at
